@@ -295,10 +295,15 @@ def C03(tier):
     ]
     models = [
         dict(module="Partition", name="MC_Partition",
-             cfg=dict(constants=dict(FIX, N=q(tier, 5, 6), NMin=0, OutOfRange=True, Emit=False), invariants=["BagInv", "CursorInv"])),
+             cfg=dict(constants=dict(FIX, N=q(tier, 5, 6), NMin=0, OutOfRange=True, Emit=False), invariants=["BagInv", "CursorInv"], properties=["RefinesProof"])),
         dict(module="RemoveNan", name="MC_RemoveNan",
              cfg=dict(constants=dict(FIX3, MaxLen=q(tier, 5, 7), MaxStride=3, Offsets="{0, 2}", Kinds='{"float", "option"}', Emit=False),
-                      invariants=["CursorInv", "FrameInv"])),
+                      invariants=["CursorInv", "FrameInv"], properties=["RefinesProof"])),
+        # every length: through a ghost permutation the array / lane is at all times a rearrangement of the original one (each cell
+        # holds the element of a distinct original cell) - proved with TLAPS on PartitionAlg / RemoveNanAlg; the two models above
+        # carry the same ghost and check the refinement
+        dict(engine="tlaps", module="PartitionProof", name="TLAPS_PartitionProof", deps=["PartitionAlg"]),
+        dict(engine="tlaps", module="RemoveNanProof", name="TLAPS_RemoveNanProof", deps=["RemoveNanAlg"]),
         dict(module="Select", name="MC_Select_emit", emit=True,
              cfg=dict(constants=dict(FIX, N=q(tier, 4, 5), NMin=1, OutOfRange=False, Emit=True), invariants=["BagInv", "EmitInv"])),
         dict(module="Partition", name="MC_Partition_emit", emit=True,
